@@ -640,12 +640,51 @@ func c19Pair(w *World, r *Report, rule string, closeOnly bool, n *types.Named, e
 			}
 		}
 	})
+	// a helper that closes the half it is handed exactly once on every path (`errs = closeAndCollect(errs, sc.R)`)
+	helperArg := func(c ssa.CallInstruction) ssa.Value {
+		sc := c.Common().StaticCallee()
+		if sc == nil || !inModule(sc) || len(sc.Blocks) == 0 {
+			return nil
+		}
+		for i, a := range c.Common().Args {
+			if fieldOfVal(a) == nil || i >= len(sc.Params) {
+				continue
+			}
+			p := sc.Params[i]
+			once, n := true, 0
+			okp := enumPaths(sc, nil, func(x ssa.Instruction) bool {
+				c2, ok := x.(ssa.CallInstruction)
+				return ok && isCloseOn(w, c2, func(v ssa.Value) bool {
+					for _, root := range provenance(v, provOpts{}) {
+						if root == ssa.Value(p) {
+							return true
+						}
+					}
+					return false
+				})
+			}, nil, func(e pathExit) {
+				if _, isRet := e.Last.(*ssa.Return); isRet {
+					n++
+					if len(e.State.Events) != 1 {
+						once = false
+					}
+				}
+			})
+			if okp && once && n > 0 {
+				return a
+			}
+		}
+		return nil
+	}
 	isEvent := func(in ssa.Instruction) bool {
 		c, ok := in.(ssa.CallInstruction)
 		if !ok || loopCall[in] {
 			return false
 		}
-		return isCloseOn(w, c, func(v ssa.Value) bool { return fieldOfVal(v) != nil })
+		if isCloseOn(w, c, func(v ssa.Value) bool { return fieldOfVal(v) != nil }) {
+			return true
+		}
+		return helperArg(c) != nil
 	}
 	bad := ""
 	paths := 0
@@ -662,7 +701,9 @@ func c19Pair(w *World, r *Report, rule string, closeOnly bool, n *types.Named, e
 			c := ev.(ssa.CallInstruction)
 			cc := c.Common()
 			var arg ssa.Value
-			if cc.IsInvoke() {
+			if ha := helperArg(c); ha != nil && !isCloseOn(w, c, func(v ssa.Value) bool { return fieldOfVal(v) != nil }) {
+				arg = ha
+			} else if cc.IsInvoke() {
 				arg = cc.Value
 			} else {
 				arg = cc.Args[0]
